@@ -677,8 +677,17 @@ func fromMapperFromTuple(v ssa.Value) bool {
 		case *ssa.Slice:
 			return walk(x.X)
 		case *ssa.Extract:
-			if call, ok := x.Tuple.(*ssa.Call); ok && x.Index == 0 {
-				return core.IsCallTo(call, "FromTuple")
+			if call, ok := x.Tuple.(*ssa.Call); ok && x.Index == 0 && core.IsCallTo(call, "FromTuple") {
+				return true
+			}
+			if call, ok := x.Tuple.(*ssa.Call); ok {
+				if a := subSliceOfArg(call, x.Index); a != nil {
+					return walk(a)
+				}
+			}
+		case *ssa.Call:
+			if a := subSliceOfArg(x, 0); a != nil {
+				return walk(a)
 			}
 		case *ssa.Phi:
 			for _, e := range x.Edges {
@@ -691,6 +700,52 @@ func fromMapperFromTuple(v ssa.Value) bool {
 		return false
 	}
 	return walk(v)
+}
+
+// subSliceOfArg: call is a call of a repository helper whose result idx is, on every return, a
+// (sub-)slice of one and the same parameter; the argument passed for that parameter.
+func subSliceOfArg(call *ssa.Call, idx int) ssa.Value {
+	sc := call.Common().StaticCallee()
+	if sc == nil || sc.Blocks == nil || core.FuncPkg(sc) == nil || !core.IsKeto(core.FuncPkg(sc)) {
+		return nil
+	}
+	var par *ssa.Parameter
+	ok := true
+	n := 0
+	core.Instrs(sc, func(_ *ssa.BasicBlock, _ int, ins ssa.Instruction) {
+		ret, isRet := ins.(*ssa.Return)
+		if !isRet {
+			return
+		}
+		n++
+		if idx >= len(ret.Results) {
+			ok = false
+			return
+		}
+		v := core.ValueOrigin(ret.Results[idx])
+		for {
+			sl, isSl := v.(*ssa.Slice)
+			if !isSl {
+				break
+			}
+			v = core.ValueOrigin(sl.X)
+		}
+		q, isPar := v.(*ssa.Parameter)
+		if !isPar || (par != nil && q != par) {
+			ok = false
+			return
+		}
+		par = q
+	})
+	if !ok || par == nil || n == 0 {
+		return nil
+	}
+	for i, q := range sc.Params {
+		if q == par && i < len(call.Common().Args) {
+			return call.Common().Args[i]
+		}
+	}
+	return nil
 }
 
 // ---- R04.7 no process-local mutable state in persistence/sql -----------------------------------------
